@@ -5,6 +5,7 @@ mod fw;
 mod gen;
 mod oracle;
 mod props;
+mod zoo;
 
 use fw::{Ctx, Tier};
 
@@ -15,6 +16,22 @@ fn main() {
         std::process::exit(2);
     }
     fw::install_panic_hook();
+    if args[1] == "zoo-smoke" {
+        // development aid: fit every zoo builder for seeds 0..n and print timings
+        let n: u64 = args.get(2).and_then(|s| s.parse().ok()).unwrap_or(5);
+        let only = args.get(3).cloned();
+        for (name, b) in zoo::predictor_builders().into_iter().chain(zoo::other_builders()) {
+            if let Some(o) = &only { if !name.contains(o.as_str()) { continue; } }
+            for seed in 0..n {
+                let t0 = std::time::Instant::now();
+                println!("start {name} seed={seed}");
+                let r = fw::guarded(|| b(seed.wrapping_mul(0x9E3779B97F4A7C15) ^ 77));
+                let msg = match r { Ok(Ok(_)) => "ok".to_string(), Ok(Err(e)) => format!("ERR {e}"), Err(p) => format!("PANIC {p}") };
+                println!("  {name} seed={seed} {:.2}s {msg}", t0.elapsed().as_secs_f64());
+            }
+        }
+        return;
+    }
     if args[1] == "child" {
         std::process::exit(props::child(&args[2..]));
     }
